@@ -117,6 +117,33 @@ func main() {
 		}
 		run.funcs = append(run.funcs, funcInfo{name, n, enc})
 	}
+	// lemmas instantiated by the encodings above are proved as obligations of the same run
+	var lnames []string
+	for n := range p.usedLemmas {
+		lnames = append(lnames, n)
+	}
+	sort.Strings(lnames)
+	for _, n := range lnames {
+		if p.lemmas[n].Proved == "definition" {
+			continue
+		}
+		if *fnFilter != "" {
+			continue
+		}
+		enc, err := p.verifyLemma(n)
+		if err != nil {
+			run.engineErrors = append(run.engineErrors, err.Error())
+			continue
+		}
+		p.lemmas[n].Proved = "proved in this run"
+		for _, o := range enc.obls {
+			if *oblFilter != "" && !strings.Contains(o.Name, *oblFilter) {
+				continue
+			}
+			run.items = append(run.items, &OblResult{Obl: o, Enc: enc})
+		}
+		run.funcs = append(run.funcs, funcInfo{"lemma " + n, 1, enc})
+	}
 	if *list {
 		for _, it := range run.items {
 			fmt.Printf("%s :: %s [%s]\n", it.Obl.Func, it.Obl.Name, it.Obl.Class)
@@ -125,7 +152,7 @@ func main() {
 	}
 	// discharge
 	var wg sync.WaitGroup
-	sem := make(chan struct{}, 8)
+	sem := make(chan struct{}, 6)
 	for i, it := range run.items {
 		wg.Add(1)
 		go func(i int, it *OblResult) {
@@ -136,8 +163,7 @@ func main() {
 			if it.Obl.Cover {
 				want = "sat"
 			}
-			q := it.Enc.Query(it.Obl)
-			it.Res = solve(scratch, i, q, want, timeout, *seed, *tier == "thorough")
+			it.Res = solve(scratch, i, it.Enc, it.Obl, timeout, *seed, *tier == "thorough")
 			it.OK = it.Res.Status == want && it.Res.Conflict == ""
 		}(i, it)
 	}
